@@ -54,6 +54,8 @@ const (
 	mStamp
 	mChoose
 	mTry
+	mWait
+	mSpawn
 	mDone
 )
 
@@ -106,8 +108,15 @@ type Task struct {
 	wantLock uintptr
 	// wantShared: the pending acquisition is the read side of a RWMutex
 	wantShared bool
-	prio       int
-	started  bool
+	// waiting: the task polls something the simulator does not own (channel,
+	// WaitGroup) and found it not ready when progress stood at waitStamp
+	waiting   bool
+	waitStamp int
+	waitWhat  string
+	// Spawned: started by a go statement of the code under test
+	Spawned bool
+	prio    int
+	started bool
 	// Panic holds the recovered panic value of the task, if any.
 	Panic interface{}
 	// Points counts the scheduling points this task went through.
@@ -204,23 +213,38 @@ type Sched struct {
 	MapChoices int
 	// Contended counts lock attempts that found the lock held by another task.
 	Contended int
+	// progress counts the scheduling steps in which a task did something other
+	// than polling: a waiting task is not picked again before it moved on
+	progress int
+	vcN      int
+	newTask  *Task
+	// Unsupported is set when the code under test used a primitive the
+	// simulator cannot model; the run has no verdict then.
+	Unsupported string
+	// Abandoned counts goroutines of the code under test that were still
+	// waiting for something when every caller had returned.
+	Abandoned int
+	// WaitPolls / Spawns count polling yields and goroutines started by the code
+	// under test.
+	WaitPolls int
+	Spawns    int
 	// SharedOverlap counts read-lock requests made while another task already
 	// held the read side of the same lock.
 	SharedOverlap int
-	edges     []lockEdge
-	dirActive bool
+	edges         []lockEdge
+	dirActive     bool
 	// HeldBack counts scheduling decisions in which the directive kept TaskA waiting.
 	HeldBack int
 	// vector clocks (controller only)
-	vc      [][]int
-	lockVC  map[uintptr][]int
+	vc     [][]int
+	lockVC map[uintptr][]int
 	// readers counts the tasks holding the read side of a reader/writer lock;
 	// readerVC joins the clocks of their releases (a writer synchronises with
 	// all of them, a reader only with the last writer).
 	readers  map[uintptr]int
 	readerVC map[uintptr][]int
-	cells   map[uintptr]*vcCell
-	VCRaces []VCRace
+	cells    map[uintptr]*vcCell
+	VCRaces  []VCRace
 	// Outcome
 	Deadlock string
 	Runaway  bool
@@ -366,6 +390,47 @@ func (s *Sched) TryLock(key uintptr, name string, shared bool, try func() bool) 
 	return true
 }
 
+// WaitPoint is called by a polling operation that found its channel /
+// WaitGroup not ready.
+//
+//go:norace
+func (s *Sched) WaitPoint(what string) {
+	if !s.Active() {
+		return
+	}
+	s.handoff(msg{kind: mWait, obj: what})
+}
+
+// NoteUnsupported ends the run without verdict.
+//
+//go:norace
+func (s *Sched) NoteUnsupported(what string) {
+	if s.Unsupported == "" {
+		s.Unsupported = what
+	}
+}
+
+// Spawn registers a goroutine started by the code under test as a task. The
+// goroutine itself is started here, by the spawning task's goroutine, so that
+// the race detector sees the happens-before edge of the go statement.
+//
+//go:norace
+func (s *Sched) Spawn(fn func()) {
+	if !s.Active() {
+		go fn()
+		return
+	}
+	s.handoff(msg{kind: mSpawn})
+	t := s.newTask
+	if t == nil {
+		s.NoteUnsupported("more goroutines than the simulator has room for")
+		go fn()
+		return
+	}
+	t.fn = func(*Task) { fn() }
+	go t.body()
+}
+
 // RLock is the cooperative acquire of the read side of a reader/writer lock:
 // readers exclude writers, not each other.
 //
@@ -408,6 +473,9 @@ func (s *Sched) runnable() []*Task {
 	for _, t := range s.tasks {
 		if t.done {
 			continue
+		}
+		if t.waiting && t.waitStamp == s.progress {
+			continue // nothing has moved since it last looked
 		}
 		if t.wantLock != 0 {
 			if o := s.owner[t.wantLock]; o != nil {
@@ -514,9 +582,11 @@ func (s *Sched) Run() {
 			s.pctChg = append(s.pctChg, s.T.Draw(60*n+1))
 		}
 	}
-	s.vc = make([][]int, n)
+	// room for goroutines the code under test starts itself
+	s.vcN = n + 32
+	s.vc = make([][]int, s.vcN)
 	for i := range s.vc {
-		s.vc[i] = make([]int, n)
+		s.vc[i] = make([]int, s.vcN)
 		s.vc[i][i] = 1
 	}
 	s.lockVC = map[uintptr][]int{}
@@ -529,10 +599,18 @@ func (s *Sched) Run() {
 		go t.body()
 	}
 	var prev *Task
-	remaining := n
-	for remaining > 0 {
+	remaining := n // tasks not finished, spawned ones included
+	callers := n   // caller tasks not finished
+	for remaining > 0 && s.Unsupported == "" {
 		run := s.runnable()
 		if len(run) == 0 {
+			if callers == 0 {
+				// every caller has returned; what is left are goroutines of the
+				// code under test that wait for something nobody will do any more
+				// (a background worker, say): not a deadlock of the callers
+				s.Abandoned = remaining
+				break
+			}
 			s.Deadlock = s.waitGraph()
 			break
 		}
@@ -592,6 +670,11 @@ func (s *Sched) Run() {
 		prev = t
 		s.Steps++
 		t.Points++
+		wasWaiting := t.waiting
+		t.waiting = false
+		if !wasWaiting {
+			s.progress++
+		}
 		s.resume(t)
 	inner:
 		for {
@@ -600,6 +683,10 @@ func (s *Sched) Run() {
 			case mDone:
 				m.task.done = true
 				remaining--
+				if !m.task.Spawned {
+					callers--
+				}
+				s.progress++
 				s.log(m.task, KEnd, m.task.Name, "")
 				// a finished task still owning locks is a bug of the code under test
 				break inner
@@ -607,6 +694,28 @@ func (s *Sched) Run() {
 				v := s.T.Draw(int(m.key))
 				s.MapChoices++
 				s.resumeWith(m.task, uint64(v))
+			case mWait:
+				m.task.waiting = true
+				m.task.waitStamp = s.progress
+				m.task.waitWhat = m.obj
+				s.WaitPolls++
+				break inner
+			case mSpawn:
+				s.newTask = nil
+				if len(s.tasks) < s.vcN {
+					nt := &Task{ID: len(s.tasks), Name: "g" + itoa(len(s.tasks)), s: s, wake: make(chan uint64), joined: make(chan struct{}), Spawned: true}
+					// the new goroutine starts with everything its parent has seen
+					copy(s.vc[nt.ID], s.vc[m.task.ID])
+					s.vc[nt.ID][nt.ID] = 1
+					s.vc[m.task.ID][m.task.ID]++
+					s.tasks = append(s.tasks, nt)
+					s.newTask = nt
+					remaining++
+					s.Spawns++
+					s.log(m.task, "spawn", nt.Name, "")
+				}
+				s.progress++
+				s.resume(m.task)
 			case mTry:
 				if m.obj == "" {
 					if nm, ok := s.lockName[m.key]; ok {
@@ -693,7 +802,7 @@ func (s *Sched) Run() {
 					// a reader's release is seen by the next writer only
 					rc := s.readerVC[m.key]
 					if rc == nil {
-						rc = make([]int, n)
+						rc = make([]int, s.vcN)
 					}
 					for i, v := range s.vc[m.task.ID] {
 						if v > rc[i] {
@@ -702,7 +811,7 @@ func (s *Sched) Run() {
 					}
 					s.readerVC[m.key] = rc
 				} else {
-					lc := make([]int, n)
+					lc := make([]int, s.vcN)
 					copy(lc, s.vc[m.task.ID])
 					s.lockVC[m.key] = lc
 				}
@@ -725,7 +834,7 @@ func (s *Sched) Run() {
 		}
 	}
 	s.active = false
-	if s.Deadlock == "" && !s.Runaway {
+	if s.Deadlock == "" && !s.Runaway && s.Unsupported == "" && s.Abandoned == 0 {
 		for _, t := range s.tasks {
 			<-t.joined // visible join
 		}
@@ -878,6 +987,8 @@ func (s *Sched) waitGraph() string {
 				on = itoa(s.readers[t.wantLock]) + " reader(s)"
 			}
 			parts = append(parts, fmt.Sprintf("%s waits for %s held by %s", t.Name, s.lockName[t.wantLock], on))
+		} else if t.waiting {
+			parts = append(parts, fmt.Sprintf("%s waits in a %s that nobody completes", t.Name, t.waitWhat))
 		}
 	}
 	sort.Strings(parts)
